@@ -358,6 +358,7 @@ impl Check for C14 {
             OPS.len(),
             freshness_cases().len()
         );
+        ctx.rule.push_str("; calls whose key reads the object they go through (`m[m.state](x)`, `this[this.state](x)`, through an alias); bound functions through argument spreads and concatenation");
         let mut g_moved_called = false;
         let mut g_no_this = false;
         let stats = bfs(
